@@ -127,10 +127,10 @@ def cmdOp (toks : List String) : Option String :=
     pure ("ok " ++ (match r.1 with | .none => "none" | .read => "read" | .write => "write") ++ " " ++ toString r.2)
   | ["prdispatch", set, sa] => do
     let st ← genSet set
-    let n ← sa.toNat?
+    let n ← sa.toInt?
     match Compat.findOp st "PERSISTENT_RESERVE_IN" with
     | none => pure "err AttributeError"
-    | some op => match Guards.prInDispatch op.sas n with
+    | some op => match Guards.prInDispatchInt op.sas n with
       | .ok c => pure ("ok " ++ c)
       | .error e => pure (showErr e)
   -- facaderun <withUnmarshall 0|1> <construct ok|err> <device ok|err> <unmarshall ok|err>
@@ -265,6 +265,7 @@ def cmdOp (toks : List String) : Option String :=
       | _ => .error .notImplemented
     pure (PVText.showExceptPV r)
   | ["t10op", name] => pure (match Std.lookup Std.t10Opcodes name with | some v => "ok " ++ toString v | none => "none")
+  | ["t10sahome", name] => pure (match Std.lookup Std.t10ServiceActionHome name with | some v => "ok " ++ toString v | none => "none")
   | ["t10sa", name] => pure (match Std.lookup Std.t10ServiceActions name with | some v => "ok " ++ toString v | none => "none")
   | ["samstatus", name] => pure (match Std.lookup Std.samStatus name with | some v => "ok " ++ toString v | none => "none")
   | ["samlen", v] => do
